@@ -40,6 +40,9 @@ type (
 		File         string
 		Offset       int64
 		LastSeenSize int64
+
+		// missed is set while the last scan did not find the file (not persisted; used by the sync job only)
+		missed bool
 	}
 
 	descs map[string]*desc
@@ -310,6 +313,7 @@ func (s *Scanner) mergeDescs(old, new descs) descs {
 		}
 		if od.LastSeenSize <= nd.LastSeenSize && off <= nd.LastSeenSize {
 			od.setLastSeenSize(nd.getLastSeenSize())
+			od.missed = false
 			res[id] = od
 			continue
 		}
@@ -319,6 +323,13 @@ func (s *Scanner) mergeDescs(old, new descs) descs {
 	}
 	for id, od := range old {
 		if _, ok := res[id]; !ok {
+			if !od.missed {
+				// one scan that does not find a file (renamed away and back, a failing stat) does not cost it its
+				// offset: the descriptor, and its worker, stay for one more scan
+				od.missed = true
+				res[id] = od
+				continue
+			}
 			s.logger.Debug("Merge: del=", od)
 			d++
 		}
